@@ -150,12 +150,6 @@ theorem lockInv_kvUnlockTxn {s s' : State} {idx : Nat} {e w : KV} {b : Bool}
   · rename_i e' hd _ _ _ hs
     exact lockInv_kvSetTxn hs h (fun _ hne => absurd (unlockDecision_some hd).1 hne)
 
-theorem kvSetTxn_ok {s : State} {idx : Nat} {e : KV} {upd : Bool} (h : e.key ≠ []) :
-    ∃ s' w, kvSetTxn s idx e upd = .ok (s', w) := by
-  simp only [kvSetTxn, h, if_false]
-  repeat' split
-  all_goals exact ⟨_, _, rfl⟩
-
 /-- the verdict of a lock command is `true` exactly when `lockDecision` hands an entry to the write -/
 theorem apply_lock_true_iff (s : State) (idx : Nat) (e : KV) :
     (apply s idx (.kvLock e)).2 = .bool true ↔ ∃ e', lockDecision s idx e = .ok (some e') := by
